@@ -49,7 +49,7 @@ KAPPA_CAL_MAX = 1.0e4
 SING_FACTOR = 1.0e9          # design figure 1e12; worst seen 1e13 (duplicated rows, rounding-level pivot)
 
 FAMILIES = ("random", "permuted", "rowscaled", "colscaled", "entryscaled",
-            "trap")
+            "trap", "lossless")
 INVERSES = ("vnaconv_ztoyn", "vnaconv_ytozn")
 DIVIDES = ("vnaconv_stozn", "vnaconv_stoyn", "vnaconv_ztosn", "vnaconv_ytosn")
 
@@ -90,6 +90,19 @@ def family_matrix(rng, n, fam):
     elif fam == "trap":
         a = np.where(rng.random((n, n)) < 0.35, a * 1e-9, a)
         a = a * 10.0 ** rng.uniform(-8, 8, (n, 1))
+    elif fam == "lossless":
+        # Z or Y of a (nearly) lossless network: purely imaginary or
+        # imaginary-dominant entries - or, rotated, purely real ones - with
+        # small elements where elimination would like to pivot (a port at
+        # series resonance, a quarter-wave line)
+        a = 1j * rng.standard_normal((n, n))
+        if rng.random() < 0.5:
+            a = a + 1e-6 * rng.standard_normal((n, n))
+        a = np.where(rng.random((n, n)) < 0.35, a * 1e-9, a)
+        for i in range(n):
+            if rng.random() < 0.5:
+                a[i, i] = 0.0
+        a = a * np.exp(1j * rng.choice([0.0, 0.0, np.pi / 2, 0.3]))
     return a
 
 
@@ -1275,7 +1288,8 @@ def main():
     chk.finish(
         rule="conv: vnaconv_ztoyn/ytozn/stozn/stoyn/ztosn/ytosn, n=1..8, "
              "system matrix from the families random / row-permuted / "
-             "row-scaled / column-scaled / entry-scaled (10^U(-8,8)) / trap "
+             "row-scaled / column-scaled / entry-scaled (10^U(-8,8)) / trap / "
+             "lossless (imaginary-dominant with zeros on the diagonal) "
              "(35% of entries x1e-9, rows rescaled), row-equilibrated "
              "condition <= 1e8; judged by the row-equilibrated residual of the "
              "system derived from the port relations (smaller of the left and "
